@@ -1153,6 +1153,9 @@ func (t *State) procTodoBlkForWalk(todoBlocks []*pb.InternalBlock) (err error) {
 				utxoKeysInBlock[utxoKey] = true
 			}
 			t.log.Debug("procTodoBlkForWalk", "txid", showTxId, "autogen", t.verifyAutogenTxValid(tx), "coinbase", tx.Coinbase)
+			if tx.Autogen && !tx.Coinbase && !t.isPlainAutogenTx(tx) {
+				return fmt.Errorf("invalid autogen tx.txid:%s,err:%v", showTxId, ErrInvalidAutogenTx)
+			}
 			// 校验定时交易合法性
 			if t.verifyAutogenTxValid(tx) && !tx.Coinbase {
 				// 校验auto tx
